@@ -34,19 +34,22 @@ merge_sort numbering, last:, before: = left parent, revid:, tag:, ancestor: =
 unique LCA, mainline: = oldest left-hand revision having it as an ancestor)
 and in_history / as_revision_id agree.
 
-Mutants this was built against (scratch worktree /var/tmp/wt-C22; see report):
+Mutants this was built against (scratch worktree /var/tmp/wt-C22; all caught by the oracle with a
+concrete input unless noted; see report):
   M1 revisionspec.RevisionSpec_revno._lookup: negative clamp `last + revno + 1` -> `last + revno`
   M2 revisionspec.RevisionSpec_before._match_on: `r.revno - 1` -> `r.revno - 2` for mainline revisions > 2
   M3 revisionspec.RevisionSpec_before._as_revision_id: parents[0] -> parents[-1]
-  M4 branch._do_dotted_revno_to_revision_id: `len(revision_ids) == 1` -> `>= 1` after matching only revno[:2]
+  M4 branch._do_dotted_revno_to_revision_id: match on revno[:2] and `len(revision_ids) >= 1`
   M5 branch._filter_merge_sorted_revisions 'include' rule: stop test before the yield (= exclude)
   M6 branch._filter_start_non_ancestors: whitelist.update(parents) dropped
   M7 branch._filter_merge_sorted_revisions 'with-merges': whitelist.extend(rev.parent_ids[:1])
-  M8 bzr/branch.revision_id_to_revno: `self.revno() - index` -> `self.revno() - index - (index > 2)`
+  M8 bzr/branch.revision_id_to_revno: `self.revno() - index` -> `- index - (1 if index > 2 else 0)`
   M9 revisionspec.RevisionSpec_last: `last_revno - offset + 1` -> `last_revno - offset`
   M10 revisionspec.RevisionSpec_dwim: tag tried after revid
-  H1 harmless: _gen_revno_map dict comprehension replaced by a loop; list comprehension in
-     _do_dotted_revno_to_revision_id replaced by a generator + list()
+  M11 branch._filter_start_non_ancestors: `if not merge_depth` -> `if merge_depth <= 1`
+  M12 bzr/branch.get_rev_id: `revno > last_revno` -> `revno >= last_revno`
+  M13 branch 'with-merges-without-common-ancestry': mainline revisions never filtered
+  H1 harmless: _gen_revno_map dict comprehension replaced by a loop -> clean
 """
 import random
 
@@ -55,7 +58,8 @@ from vlib import env
 THEOREMS = [
     "mergeSort_total", "mergeSort_covers", "mergeSort_nodup", "dotted_injective", "mergeSort_tip_first",
     "get_rev_id_nth", "revno_roundtrip", "revno_zero", "get_rev_id_pred_is_left_parent",
-    "revno_map_bijection", "dotted_roundtrip_partial", "dotted_roundtrip_inv_partial",
+    "revno_map_bijection", "mainline_revno", "dotted_roundtrip", "dotted_roundtrip_inv",
+    "dotted_roundtrip_of_coherent", "dotted_roundtrip_inv_of_coherent",
     "spec_neg", "spec_last", "spec_revid", "spec_tag", "spec_before", "spec_before_null",
     "spec_mainline", "spec_ancestor", "iter_sublist", "iter_exclude_include",
 ]
@@ -604,7 +608,7 @@ def oracle(w, gi, facts, q, res):
                     bad.append("mainline revision %r has dotted revno %r, expected (%d,)" % (name(g, x), res.get(name(g, x)), i + 1))
             mainline = {name(g, x) for x in lh}
             for r_, d_ in res.items():
-                # hypothesis `mainlineCoherent` of dotted_roundtrip_partial, observed on the real map
+                # theorem mainline_revno, observed on the real map
                 if (len(d_) == 1) != (r_ in mainline):
                     bad.append("revision %r has dotted revno %r but is %s the mainline" % (r_, d_, "on" if r_ in mainline else "off"))
             if {name(g, r): d for r, d in numbering.items()} != res:
@@ -862,8 +866,8 @@ def run(ctx, nworlds=None):
     os.chdir(env.scratch())       # a prefix-less specifier may be tried as a relative branch location
     check_plugins(ctx)
     run_corpus(ctx)
-    pure_merge_sort(ctx, ctx.pick(1500, 12000))
-    nworlds = nworlds or ctx.pick(56, 400)
+    pure_merge_sort(ctx, ctx.pick(1200, 12000))
+    nworlds = nworlds or ctx.pick(44, 400)
     per = dict(iter=ctx.pick(40, 120), spec=ctx.pick(140, 400), malformed=ctx.pick(14, 40))
     nmax = ctx.pick(12, 14)
     worlds = [gen_world(ctx.rng, nmax) for _ in range(nworlds)]
